@@ -8,6 +8,7 @@ unraisable (weakref callbacks)."""
 import gc
 import logging
 import os
+import signal
 import sys
 
 sys.path.insert(0, os.path.dirname(os.path.abspath(__file__)))
@@ -41,6 +42,30 @@ def _unraisable(u):
 
 push_exception_handler(handler=_exc_handler, reraise_exceptions=False, main=True)
 sys.unraisablehook = _unraisable
+
+
+# Watchdog: the property forbids unbounded recursion.  Without the lock table the propagation does not
+# loop forever (RecursionError is swallowed by the handlers' bare `except: pass`) but takes time
+# exponential in the recursion limit.  When one operation runs longer than OP_BUDGET seconds the alarm
+# handler lowers the recursion limit to the current depth, so that every further call fails and the
+# swallowing handlers unwind in linear time; the operation is then reported as RecursionError.
+OP_BUDGET = 5.0
+BASE_LIMIT = sys.getrecursionlimit()
+TIMED_OUT = [False]
+
+
+def _on_alarm(signum, frame):
+    TIMED_OUT[0] = True
+    depth, f = 0, frame
+    while f is not None:
+        depth, f = depth + 1, f.f_back
+    try:
+        sys.setrecursionlimit(depth + 3)
+    except RecursionError:
+        pass
+
+
+signal.signal(signal.SIGALRM, _on_alarm)
 
 
 def make_recorder(oid, counts):
@@ -107,6 +132,8 @@ def run_case(case):
         counts.clear()
         LOGGED[0] = 0
         res = "Done"
+        TIMED_OUT[0] = False
+        signal.setitimer(signal.ITIMER_REAL, OP_BUDGET)
         try:
             k = op[0]
             if k == "Assign":
@@ -127,6 +154,10 @@ def run_case(case):
         except Exception as e:  # noqa: BLE001
             res = dlib.exn_name(e, EXN)
             e = None
+        signal.setitimer(signal.ITIMER_REAL, 0)
+        if TIMED_OUT[0]:
+            sys.setrecursionlimit(BASE_LIMIT)
+            res = "RecursionError"
         vals, cnt = [], []
         for oid, o in enumerate(pool):
             if o is None:
